@@ -6,7 +6,7 @@ ObjSeqDef == IF c \in Obj THEN <<a, b, c>> ELSE <<a, b>>
 ActsC20 == {"New", "NewLike", "Store", "SetItem", "SetItemFxp", "GetItem", "CtorLike", "Like", "DeepCopy", "Resize", "Reset", "SetCfg", "SetCfgBad", "BinOp", "Neg", "Assign", "RShiftKeep", "LShiftKeep", "Invert"}
 ActsC20Neg == (ActsC20 \ {"Like"}) \cup {"LikeShallow"}
 ActsC04 == {"New1", "Store", "SetItem", "SetItemFxp", "GetItem", "CtorLike", "Reset", "BinOp", "BinOpOut", "Resize", "SetCfg", "Assign"}
-ActsC02 == {"New1", "Store", "SetItem", "GetItem", "CtorLike", "Like", "DeepCopy", "Resize", "BinOp", "Neg", "Assign", "SetCfg"}
+ActsC02 == {"New1", "Store", "SetItem", "SetItemFxp", "GetItem", "CtorLike", "Like", "DeepCopy", "Resize", "BinOp", "Neg", "Assign", "SetCfg"}
 \* the extension instance: the rest of C20's list of deriving operations (bitwise, expanding shifts, NumPy reductions, constants,
 \* in-place operators, raw stores) together with the mutations that expose sharing
 ActsExt == {"New1", "GetItem", "SetItem", "BitOp", "BitMask", "ShiftExpand", "Reduce", "BinOpConst", "IOp", "SetRaw", "BinOpSub", "SetCfg"}
